@@ -103,3 +103,5 @@ V('C11', 'fork-drops-path-prefix', T, TM + '_fork_context',
   '        path_prefix=ctx.path_prefix,\n', '        path_prefix=ctx.anchors,\n', 'C11.R9', '_fork_context:path_prefix')
 V('C11', 'module-block-resets-documents', 'edb/schema/ddl.py', 'edb.schema.ddl.apply_sdl',
   '            documents.setdefault(new_mod, [])\n', '            documents[new_mod] = []\n', 'C11.R9', 'documents-only-extended')
+V('C11', 'lint-fork-copies-wrong-field', T, TM + '_fork_context',
+  '        pointers=ctx.pointers,\n', '        pointers=ctx.anchors,\n', 'C11.L', 'slips:like-for-like-copies')
